@@ -10,6 +10,7 @@ import (
 	"io"
 	"os"
 	"os/exec"
+	"os/signal"
 	"path/filepath"
 	"runtime"
 	"strings"
@@ -116,11 +117,18 @@ func c18Run(c C18Case, base string, k int, fault string) (points []string, commi
 			if fault == "crash" {
 				panic(crashSentinel{point})
 			}
+			if fault == "efbig" {
+				// make the real write(2) fail after part of the data: the file-size limit of this process is
+				// lowered to half of the content until the operation returns
+				c18LimitFileSize(uint64(c.Size / 2))
+				return nil
+			}
 			return errInjected
 		}
 		return nil
 	})
 	defer fsstore.SetVerifHook(nil)
+	defer c18RestoreFileSize()
 	defer func() {
 		if r := recover(); r != nil {
 			if _, ok := r.(crashSentinel); ok {
@@ -268,6 +276,31 @@ func c18Verify(c C18Case, base string, committed, inflight map[string][]byte, wh
 	return nil
 }
 
+var (
+	c18OldLimit   syscall.Rlimit
+	c18LimitSet   bool
+	c18IgnoreOnce sync.Once
+)
+
+// c18LimitFileSize lowers the soft RLIMIT_FSIZE of the process (SIGXFSZ ignored, so that write(2) returns a
+// short count and then EFBIG); c18RestoreFileSize puts it back.
+func c18LimitFileSize(n uint64) {
+	c18IgnoreOnce.Do(func() { signal.Ignore(syscall.SIGXFSZ) })
+	if err := syscall.Getrlimit(syscall.RLIMIT_FSIZE, &c18OldLimit); err != nil {
+		return
+	}
+	if err := syscall.Setrlimit(syscall.RLIMIT_FSIZE, &syscall.Rlimit{Cur: n, Max: c18OldLimit.Max}); err == nil {
+		c18LimitSet = true
+	}
+}
+
+func c18RestoreFileSize() {
+	if c18LimitSet {
+		_ = syscall.Setrlimit(syscall.RLIMIT_FSIZE, &c18OldLimit)
+		c18LimitSet = false
+	}
+}
+
 func c18Check(c C18Case, rec *evid.Rec) error {
 	mk := func() (string, func()) {
 		dir, err := os.MkdirTemp("", "c18-")
@@ -287,7 +320,10 @@ func c18Check(c C18Case, rec *evid.Rec) error {
 		return err
 	}
 	for k := range points {
-		for _, fault := range []string{"crash", "error"} {
+		for _, fault := range []string{"crash", "error", "efbig"} {
+			if fault == "efbig" && (points[k] != "put.write" || c.Size < 2) {
+				continue
+			}
 			base, cleanup := mk()
 			if base == "" {
 				return nil
@@ -328,7 +364,7 @@ func drawC18(t *rapid.T, scenario string) C18Case {
 
 var c18Part = evid.Part[C18Case]{
 	Prop: "C18", Name: "faultpoints", Quick: 160, Thorough: 16000,
-	Rule: "scenario (put into a fresh shard dir / an existing one, re-put, streamed put in k chunks, abandoned stream, abort with the empty key, write error, cancelled context) × drawn keys, sizes, escaping and sharding × EVERY hook point of the operation (create staging file, write, close, rename, mkdir of missing parents, retry, cleanup) × {crash: the hook panics and all in-memory state is abandoned; error: the step fails}; afterwards a NEW store must find every committed key complete, the in-flight key absent or complete, no partial file outside the staging area, and fresh puts/gets working; every (scenario, point, fault) execution is counted (distinct by construction within a case)",
+	Rule: "scenario (put into a fresh shard dir / an existing one, re-put, streamed put in k chunks, abandoned stream, abort with the empty key, write error, cancelled context) × drawn keys, sizes, escaping and sharding × EVERY hook point of the operation (create staging file, write, close, rename, mkdir of missing parents, retry, cleanup) × {crash: the hook panics and all in-memory state is abandoned; error: the step fails; at the write of Put also efbig: the real write(2) fails after half of the data (file-size limit)}; afterwards a NEW store must find every committed key complete, the in-flight key absent or complete, no partial file outside the staging area, and fresh puts/gets working; every (scenario, point, fault) execution is counted (distinct by construction within a case)",
 	Gen: func(t *rapid.T) C18Case {
 		return drawC18(t, rapid.SampledFrom(c18Scenarios).Draw(t, "scenario"))
 	},
